@@ -31,6 +31,11 @@ CHECKS = {
         note="Trusted: Lean kernel + [propext, Classical.choice, Quot.sound]; hand-written Model/Lines.lean tied by correspondence on cut/sentinel operation sequences; the history predicate (per-line walks) for everything justify does beyond that.",
         technique="Lean 4 theorems on a hand-written heap model of cut and sentinel operations + differential execution + randomised public-API histories under ASan/LSan",
         ref="§6 C19"),
+    "C06": dict(
+        text="Proof (Lean 4 kernel), partial: the pass engine (runFSM, accumulate_rules, testConstraint, findNDoRule, adjustSlot, the maxLoop/highwater loop, pass sequencing, action interpreter) is modelled and is the reference semantics. Proved about it: fsm_matches_patterns - when the pass tables encode the rule patterns (TrieOK, a finite check the driver evaluates for every font it runs; table_check_is_sound) the state machine collects exactly the rules whose glyph-class pattern is a prefix of the stream ahead, in precedence order, and never exhausts the slot map; state_rules_in_precedence_order / merge_keeps_precedence_order - longest sort key first, then earliest rule, each once; applied_rule_is_highest_precedence - the rule whose action runs matches, its constraint holds, and every matching rule of higher precedence has a failing constraint; no_rule_means_all_failed. The model is tied to the code by shaping synthesised fonts (random rule sets over overlapping glyph columns, constraints on glyph attributes, 1..3 passes, all slot-manipulating actions) with the real engine and with the model: glyph ids, associations and attachments must be identical. Not covered: positions in design units, right-to-left and bidi passes, pass constraints.",
+        note="Trusted: Lean kernel + [propext, Classical.choice, Quot.sound]; hand-written Model/Pass.lean etc. tied by whole-pipeline correspondence; tools/fontsynth.py emits the binary font and the model's description of it from the same data (a mismatch between the two shows up as a disagreement).",
+        technique="Lean 4 theorems (matching = pattern prefixes, precedence order, first passing constraint) on a hand-written executable model of the pass engine + whole-pipeline differential execution on synthesised fonts",
+        ref="§6 C06"),
     "C11": dict(
         text="Proof (Lean 4 kernel), for all code-unit strings in all three encodings: gr_count_unicode_characters' model never faults on [begin,end) and equals the Unicode specification's scan (Table 3-7/D91/D90) - exact count without error on well-formed text, error reported on ill-formed text, error pointer inside the buffer, count <= well-formed characters before the first ill-formed sequence; NUL-terminated branch never reads past a NUL; get/put inverse on all scalar values; ill-formed sequences swallow only trailing units (resync); the three encodings of a scalar list read back as the same scalars. Decoder tables, limits and toolong thresholds are REGENERATED from UtfCodec.h/.cpp. Model tied to the code by differential execution under ASan: every UTF-8 string of <=3 bytes (exhaustive, 16.8M), boundary-structured longer strings, UTF-16/32 boundary products, gr_make_seg char-infos.",
         note="Trusted: Lean kernel + [propext, Classical.choice, Quot.sound]; extractor for Gen.Utf; hand-written Model/Utf.lean tied by finite differential runs; Spec/Utf.lean validated against Python's strict codecs through the predicate on implementation outputs. Whole-segment equality across encodings is reduced to equality of the decoded scalar list.",
